@@ -93,11 +93,28 @@ Theorem C19_firewall_recv : forall excl dumps D fw_recv handler b_chan j e id,
 Proof. exact firewall_recv. Qed.
 Print Assumptions C19_firewall_recv.
 
-Theorem C19_firewall_send : forall excl dumps D fw_send s e, fw_send e = false ->
-  wab (a_send excl dumps D fw_send s e) = wab s /\ a_nid (a_send excl dumps D fw_send s e) = a_nid s
-  /\ a_pend (a_send excl dumps D fw_send s e) = a_pend s.
+Theorem C19_firewall_send : forall excl dumps D fw_send s e m, fw_send e = false ->
+  wab (a_send excl dumps D fw_send s e m) = wab s /\ a_nid (a_send excl dumps D fw_send s e m) = a_nid s
+  /\ a_pend (a_send excl dumps D fw_send s e m) = a_pend s
+  /\ a_issued (a_send excl dumps D fw_send s e m) = a_issued s.
 Proof. exact firewall_send. Qed.
 Print Assumptions C19_firewall_send.
+
+(* ---- ids: a send that passes the firewall - with result (MCall) or without (node_without_result set,
+   Server.send(no_result=True), send_to, send_all) - writes the call with the current id, records the id as
+   handed to the peer (ghost list a_issued) and advances the counter; only a send with result registers a
+   waiting call *)
+Theorem C19_send_id : forall excl dumps D fw_send s e m b, fw_send e = true ->
+  packet dumps D (event_data excl e (JInt (a_nid s))) = Some b ->
+  wab (a_send excl dumps D fw_send s e m) = wab s ++ b
+  /\ a_issued (a_send excl dumps D fw_send s e m) = a_issued s ++ [a_nid s]
+  /\ a_nid (a_send excl dumps D fw_send s e m) = (a_nid s + 1)%Z
+  /\ a_pend (a_send excl dumps D fw_send s e m) =
+     match m with MCall => a_pend s ++ [(a_nid s, length (a_calls s))] | _ => a_pend s end
+  /\ a_nores (a_send excl dumps D fw_send s e m) =
+     match m with MCall => a_nores s | _ => a_nores s ++ [a_nid s] end.
+Proof. exact send_id. Qed.
+Print Assumptions C19_send_id.
 
 (* ---- once: any packet dispatches at most one event; an honest call that passes the firewall and
    has a handler is dispatched exactly once, as the event that was sent *)
@@ -128,12 +145,31 @@ Theorem C19_result_routing : forall excl pend calls id i v er e,
 Proof. exact result_routing. Qed.
 Print Assumptions C19_result_routing.
 
-(* ids of the calls in flight are pairwise distinct after every schedule of sends, injected (hostile)
-   bytes and reads of any size *)
+(* a reply whose id is not registered - in particular the reply the peer sends to an event that was sent
+   without result - resumes nobody and changes no waiting call *)
+Theorem C19_unregistered_reply_ignored : forall excl pend calls id v er e,
+  zget id pend = None -> is_miss (value_data excl (JInt id) er v e) = false ->
+  a_packet excl pend calls (value_data excl (JInt id) er v e) = (calls, false, false).
+Proof. exact unregistered_reply_ignored. Qed.
+Print Assumptions C19_unregistered_reply_ignored.
+
+(* after every schedule of sends (with and without result), injected (hostile) bytes and reads of any
+   size: no id handed to the peer is ever reused; the ids of the waiting calls are among them and pairwise
+   distinct; the id of a send without result is never the id of a waiting call (so its reply, whenever it
+   arrives, is ignored by C19_unregistered_reply_ignored) *)
 Theorem C19_ids_unique : forall excl dumps loads D fw_send fw_recv handler b_chan ops,
-  NoDup (map fst (a_pend (exec excl dumps loads D fw_send fw_recv handler b_chan ops))).
+  let s := exec excl dumps loads D fw_send fw_recv handler b_chan ops in
+  NoDup (a_issued s) /\ NoDup (map fst (a_pend s)) /\
+  (forall x, In x (map fst (a_pend s)) -> In x (a_issued s)) /\
+  (forall x, In x (a_nores s) -> In x (a_issued s) /\ zget x (a_pend s) = None).
 Proof. exact ids_unique. Qed.
 Print Assumptions C19_ids_unique.
+
+Example C19_noresult_ex : forall m, In m [MNoResAttr; MNoResApi] ->
+  length (b_log (Ex.final_nores m)) = 1%nat /\ map c_fin (a_calls (Ex.final_nores m)) = [false; false]
+  /\ a_issued (Ex.final_nores m) = [0; 1]%Z /\ a_nores (Ex.final_nores m) = [0%Z]
+  /\ map fst (a_pend (Ex.final_nores m)) = [1%Z].
+Proof. exact Ex.noresult_ex. Qed.
 
 (* ---- end to end on one concrete exchange (non-vacuity of the protocol model): the call is cut at
    byte 0..3, dispatched once, and its result reaches the sender *)
